@@ -111,6 +111,16 @@ def pats(U, t, depth, allow_or=True):
         flat = [c for c in ctor if all(a == ("w",) for a in c[2])]
         for a, b in itertools.combinations(flat, 2):
             out.append(("o", [a, b]))
+        # alternatives that share their head constructor and differ in the payload (`Some(Red) | Some(Green)`),
+        # alone and next to an alternative with another constructor; a bounded number per variant
+        for v, args in U["enums"][t][1]:
+            group = [c for c in ctor if c[1] == v and not all(a == ("w",) for a in c[2]) and not any(x[0] == "o" for x in c[2])]
+            same = list(itertools.combinations(group, 2))[:6]
+            for a, b in same:
+                out.append(("o", [a, b]))
+            others = [c for c in flat if c[1] != v]
+            for (a, b), c in list(zip(same, itertools.cycle(others)))[:3] if others else []:
+                out.append(("o", [a, c, b]))
     return out
 
 
